@@ -68,6 +68,11 @@ var c06ExprFaults = []faultKind{
 	{"bad-index-negative", "[1, 2][-1]"},
 	{"bad-index-fraction", "[1, 2][0.5]"},
 	{"bad-index-receiver", "(5)[0]"},
+	{"bad-index-almost-integer", "[1, 2, 3, 4][(0.1 + 0.2) * 10]"},
+	{"bad-index-almost-integer-store", "(arr0[(0.1 + 0.2) * 10 - 3] = 1)"},
+	{"type-mismatch-bitand-almost-integer", "(1 & ((0.1 + 0.2) * 10))"},
+	{"type-mismatch-shift-almost-integer", "(1 << (0.1 + 0.2 + 0.7 + 0.0000000001))"},
+	{"builtin-fails-remove-almost-integer", FnRemove + "([1, 2, 3, 4], (0.1 + 0.2) * 10)"},
 	{"missing-property", "({a: 1}).b"},
 	{"property-of-non-object", "(5).a"},
 	{"non-callable-number", "(5)()"},
@@ -1099,12 +1104,13 @@ func c06Systematic(tier string) []*Case {
 	}
 	cleanProgs["array-of-20000"] = fmt.Sprintf("%s arr = [];\n%s (%s i = 0; i < 20000; i = i + 1) { arr = %s(arr, i); }\n%s %s(arr);\n%s arr[19999] + arr[0];\n", KwVar, KwFor, KwVar, FnAppend, KwPrint, FnLen, KwPrint)
 	cleanProgs["numbers-at-the-edges"] = fmt.Sprintf("%s big = 9007199254740992;\n%s big + 1 == big;\n%s x = 2 ** 1023;\n%s inf = x * 2;\n%s inf > x;\n%s nan = inf - inf;\n%s nan == nan;\n%s tiny = 2 ** -1074;\n%s tiny > 0;\n%s tiny / 2 == 0;\n%s %s(inf) > 0;\n%s %s(nan, 1) == 1 %s %s;\n", KwVar, KwPrint, KwVar, KwVar, KwPrint, KwVar, KwPrint, KwVar, KwPrint, KwPrint, KwPrint, FnAbs, KwPrint, FnMax, KwOr, KwTrue)
+	cleanProgs["60000-void-calls"] = fmt.Sprintf("%s noop() { }\n%s proc(x) { %s y = x; }\n%s (%s i = 0; i < 60000; i = i + 1) { noop(); proc(i); }\n%s \"ok\";\n", KwFun, KwFun, KwVar, KwFor, KwVar, KwPrint)
 	cleanProgs["long-while"] = fmt.Sprintf("%s n = 0;\n%s (n < 5000) { n = n + 1; }\n%s n;\n", KwVar, KwWhile, KwPrint)
 	for _, name := range sortedStrKeys(cleanProgs) {
 		prog := cleanProgs[name]
 		want := map[string]string{"dead-fault": "ok\n", "short-circuit": "true\nfalse\n", "zero-trip-loops": "ok\n", "many-returning-calls": "2500\n", "fib-16": "987\n",
 			"deep-recursion-600": "0\n", "many-void-calls": "ok\n", "many-objects": "ok\n", "long-while": "5000\n",
-			"3000-variables-in-one-scope": "4498\n", "255-parameters": "254\n", "array-of-20000": "20000\n19999\n", "numbers-at-the-edges": "true\ntrue\nfalse\ntrue\ntrue\ntrue\ntrue\n", "60000-returning-calls": "60000\n", "fib-24": "46368\n", "leading-blank-lines": "ok\n", "array-loop-with-len": "10\n20\n30\n4\n30\n", "builtin-results-as-numbers": "22\neq\n", "return-in-while": "3\n", "return-in-for": "4\n", "return-in-nested-loops": "11\n", "break-continue": "0\n2\n3\n1\n3\n4\n5\n",
+			"3000-variables-in-one-scope": "4498\n", "255-parameters": "254\n", "array-of-20000": "20000\n19999\n", "numbers-at-the-edges": "true\ntrue\nfalse\ntrue\ntrue\ntrue\ntrue\n", "60000-returning-calls": "60000\n", "60000-void-calls": "ok\n", "fib-24": "46368\n", "leading-blank-lines": "ok\n", "array-loop-with-len": "10\n20\n30\n4\n30\n", "builtin-results-as-numbers": "22\neq\n", "return-in-while": "3\n", "return-in-for": "4\n", "return-in-nested-loops": "11\n", "break-continue": "0\n2\n3\n1\n3\n4\n5\n",
 			"param-shadows-builtin": "4\n", "varlist-in-loop": "1\n2\n3\n", "decl-in-while": "1\n2\n3\n", "shadowing": "3\n2\n1\n4\n"}[name]
 		ccfg := scriptCfg(prog, "")
 		ccfg.Budget = 60000000
